@@ -29,6 +29,15 @@
 //     entry's cut deadline (CacheEntry.cutUntil, incl. the entries written by
 //     the resolver's own sub-queries and by the background refresh).
 //
+// Focus scenarios (index >= focusBase, gen.go genFocus) add two dimensions to
+// the same oracle: DS RRsets that hold only records no validator here can use
+// (the child is insecure, the DS TTL is still a term of the lease) or usable
+// and unusable ones mixed, with DS TTL != NS TTL; and a long-leased sibling
+// zone whose CNAMEs point into the victim's zones (targets the old child
+// answers positively, with NXDOMAIN / NODATA with and without SOA), asked
+// before the change and after the bound, alias first or target first, with
+// DNSSEC on (insecure victim) and off.
+//
 // Known finding on the unchanged tree (signatures ceiling/…): the cut
 // deadline that reaches the answer cache on a direct descent lacks the 12 h
 // ceiling — see FINDINGS.md. Anything served past what the referral TTLs
@@ -140,7 +149,7 @@ func main() {
 	}
 
 	n := r.N(60, 1500)
-	nFocus := r.N(16, 400)
+	nFocus := r.N(16, 300)
 	if b := os.Getenv("C08_BATCH"); b != "" {
 		var lo, hi int
 		fmt.Sscanf(b, "%d:%d", &lo, &hi)
@@ -235,7 +244,7 @@ func main() {
 	r.Require("alias_before_change/nodata-soa/nodata-with-soa", nf/4)
 	r.Require("alias_before_change/nodata-bare/nodata-bare", nf/4)
 	r.Require("alias_after_bound_repoint_new_answer", nf)
-	r.Require("alias_derived_from_cached_target", nf)
+	r.Require("alias_derived_from_cached_target", nf/2)
 	r.Require("after_kind/alias-target", nf)
 	r.Finish(rule)
 }
@@ -461,6 +470,9 @@ func (run *runner) checkCuts(w *world) {
 	sk := w.sk
 	w.mu.Unlock()
 	for _, e := range dump {
+		if os.Getenv("C08_DEBUG") == "2" && strings.HasSuffix(strings.ToLower(e.Question), sibApex) {
+			fmt.Fprintf(os.Stderr, "    alias entry %s/%s positive=%v ttl=%v remaining=%v cut=V%v\n", e.Question, dns.TypeToString[e.Qtype], e.Positive, e.TTL, e.Remaining.Round(time.Millisecond), (e.CutUntil.Sub(w.t0) + sk).Round(time.Millisecond))
+		}
 		j := w.answerLevel(e.Question, e.Qtype)
 		lim := lims[e.CD]
 		if j == 0 || lim.lease[j] < 0 {
